@@ -256,8 +256,7 @@ class NDNApp:
         try:
             data_name, meta_info, content, sig, raw_packet = await aio.wait_for(future, timeout=lifetime/1000.0)
         except TimeoutError:
-            if node.timeout(future):
-                del self._int_tree[node_name]
+            self._remove_pending(future, node_name, node)
             raise InterestTimeout()
         except aio.CancelledError:
             raise InterestCanceled()
@@ -500,6 +499,10 @@ class NDNApp:
         """
         name = Name.normalize(name)
         del self._prefix_tree[name]
+
+    def _remove_pending(self, future: aio.Future, node_name: FormalName, node: InterestTreeNode):
+        if node.timeout(future) and self._int_tree.get(node_name) is node:
+            del self._int_tree[node_name]
 
     def _on_nack(self, name: FormalName, nack_reason: int):
         try:
